@@ -25,6 +25,7 @@ statements are about the full `energyResT` with arbitrary c, a, λ₀, α, β.
 import EPV.Gen.Cog20D
 import EPV.Spec.Euler1D
 import EPV.Lemmas.Euler1Db
+import EPV.Lemmas.HydroRobust
 import EPV.Tactics
 
 set_option linter.all false
@@ -44,8 +45,8 @@ theorem cog20_post_mass (p : Cog20.P) (r t : ℝ) (hr : r ≠ 0) (h1 : 0 < 1 - p
     massRes (Cog20.L0.density p) (Cog20.L0.velocity p) (p.geometry - 1) r t = 0 := by
   have hq := Real.rpow_pos_of_pos h1 ((p.geometry - 1) + 1)
   unfold massRes dr dt
-  rw [(Cog20.L0.density_hasDerivAt_t p r t h1 hq.ne').deriv, (Cog20.L0.density_hasDerivAt_r p r t).deriv,
-    (Cog20.L0.velocity_hasDerivAt_r p r t).deriv]
+  epv_hydro_rw_derivs [Cog20.L0.density_hasDerivAt_t p r t, Cog20.L0.density_hasDerivAt_r p r t,
+    Cog20.L0.velocity_hasDerivAt_r p r t]
   simp only [epv_deriv, epv_leaf]
   generalize ((1 : ℝ) - p.a * t) ^ ((p.geometry - 1) + 1) = q at hq ⊢
   generalize ((p.gamma + 1) / (p.gamma - 1)) ^ ((p.geometry - 1) + 1) = w
@@ -56,8 +57,8 @@ theorem cog20_post_mass (p : Cog20.P) (r t : ℝ) (hr : r ≠ 0) (h1 : 0 < 1 - p
 theorem cog20_post_momentum (p : Cog20.P) (r t : ℝ) (h1 : 0 < 1 - p.a * t) :
     momResT (Cog20.L0.density p) (Cog20.L0.velocity p) (Cog20.L0.temperature p) p.Gamma r t = 0 := by
   unfold momResT dr dt
-  rw [(Cog20.L0.velocity_hasDerivAt_t p r t h1.ne').deriv, (Cog20.L0.velocity_hasDerivAt_r p r t).deriv,
-    (Cog20.L0.density_hasDerivAt_r p r t).deriv, (Cog20.L0.temperature_hasDerivAt_r p r t).deriv]
+  epv_hydro_rw_derivs [Cog20.L0.velocity_hasDerivAt_t p r t, Cog20.L0.velocity_hasDerivAt_r p r t,
+    Cog20.L0.density_hasDerivAt_r p r t, Cog20.L0.temperature_hasDerivAt_r p r t]
   simp only [epv_deriv, epv_leaf]
   have h1' := h1.ne'
   field_simp
@@ -72,8 +73,8 @@ theorem cog20_post_energy_residual (p : Cog20.P) (c a lam0 α β r t : ℝ) (hr 
           * (2 / (p.gamma - 1) - ((p.geometry - 1) + 1)) := by
   rw [energyResT_of_T_const_r _ _ _ _ _ _ _ _ _ _ _ _ _ (fun x => by simp only [epv_leaf])]
   unfold energyHydroT dr dt
-  rw [(Cog20.L0.temperature_hasDerivAt_t p r t (pow_ne_zero 2 h1.ne')).deriv,
-    (Cog20.L0.temperature_hasDerivAt_r p r t).deriv, (Cog20.L0.velocity_hasDerivAt_r p r t).deriv]
+  epv_hydro_rw_derivs [Cog20.L0.temperature_hasDerivAt_t p r t, Cog20.L0.temperature_hasDerivAt_r p r t,
+    Cog20.L0.velocity_hasDerivAt_r p r t]
   simp only [epv_deriv, epv_leaf]
   have h1' := h1.ne'
   field_simp
@@ -131,8 +132,8 @@ theorem cog20_pre_mass (p : Cog20.P) (r t : ℝ) (hr : 0 < r) (hb : 0 < r - p.u0
   have hb' : 0 < (r - p.u0 * t) / r := div_pos hb hr
   have hw := Real.rpow_pos_of_pos hb' (p.geometry - 1)
   unfold massRes dr dt
-  rw [(Cog20.L1.density_hasDerivAt_t p r t h1 hq.ne' hb').deriv,
-    (Cog20.L1.density_hasDerivAt_r p r t hr.ne' hb').deriv, (Cog20.L1.velocity_hasDerivAt_r p r t).deriv]
+  epv_hydro_rw_derivs [Cog20.L1.density_hasDerivAt_t p r t, Cog20.L1.density_hasDerivAt_r p r t,
+    Cog20.L1.velocity_hasDerivAt_r p r t]
   simp only [epv_deriv, epv_leaf]
   generalize ((1 : ℝ) - p.a * t) ^ ((p.geometry - 1) + 1) = q at hq ⊢
   generalize ((r - p.u0 * t) / r) ^ (p.geometry - 1) = w at hw ⊢
@@ -148,8 +149,8 @@ example : ∃ p : Cog20.P, ∃ r t : ℝ, 0 < r ∧ 0 < r - p.u0 * t ∧ 0 < 1 -
 theorem cog20_pre_momentum (p : Cog20.P) (r t : ℝ) (h1 : 0 < 1 - p.a * t) :
     momResT (Cog20.L1.density p) (Cog20.L1.velocity p) (Cog20.L1.temperature p) p.Gamma r t = 0 := by
   unfold momResT dr dt
-  rw [(Cog20.L1.velocity_hasDerivAt_t p r t h1.ne').deriv, (Cog20.L1.velocity_hasDerivAt_r p r t).deriv,
-    (Cog20.L1.temperature_hasDerivAt_r p r t).deriv]
+  epv_hydro_rw_derivs [Cog20.L1.velocity_hasDerivAt_t p r t, Cog20.L1.velocity_hasDerivAt_r p r t,
+    Cog20.L1.temperature_hasDerivAt_r p r t]
   simp only [epv_deriv, epv_leaf]
   have h1' := h1.ne'
   field_simp
@@ -160,8 +161,8 @@ theorem cog20_pre_energy (p : Cog20.P) (c a lam0 α β r t : ℝ) :
       p.Gamma p.gamma (p.geometry - 1) c a lam0 α β r t = 0 := by
   rw [energyResT_of_T_const_r _ _ _ _ _ _ _ _ _ _ _ _ _ (fun x => by simp only [epv_leaf])]
   unfold energyHydroT dr dt
-  rw [(Cog20.L1.temperature_hasDerivAt_t p r t).deriv, (Cog20.L1.temperature_hasDerivAt_r p r t).deriv,
-    (Cog20.L1.velocity_hasDerivAt_r p r t).deriv]
+  epv_hydro_rw_derivs [Cog20.L1.temperature_hasDerivAt_t p r t, Cog20.L1.temperature_hasDerivAt_r p r t,
+    Cog20.L1.velocity_hasDerivAt_r p r t]
   simp only [epv_deriv, epv_leaf]
   ring
 
